@@ -638,5 +638,177 @@ theorem ok_head_at_every_iteration {I : Inst α} {source : Nat} {target : Option
           ih hrun' (by have := ht.counters.1; omega)
         exact ⟨v :: pre, rest'', h, by rw [hsched]; rfl, Reach.turn ht hr, hit, hterm'⟩
 
+/-- the last loop head produces the result -/
+theorem runLoop_final {I : Inst α} {source : Nat} {target : Option Nat} {h s : SState α}
+    {rest : List Nat} (hterm : I.term h.solSize h.iters = .ok ()) (hf : Final target h rest s) :
+    runLoop I source target rest h = .ok s := by
+  rw [runLoop_unfold]
+  rcases hf with ⟨h1, rfl, rfl⟩ | ⟨t, rest', rfl, h1, h2, rfl, rfl⟩
+  · simp only [hterm, h1, if_true]
+  · simp [hterm, h1, h2]
+
+/-! ### limited_prefix and success_monotone -/
+
+/-- the `for` loop never consults the limit function -/
+theorem relaxAll_withTerm (I : Inst α) (t : Nat → Nat → Except ErrKind Unit) (hasTarget : Bool)
+    (lastEdge : Option Nat) (curState : List α) :
+    ∀ (es : List Nat) (s : SState α),
+      relaxAll { I with term := t } hasTarget lastEdge curState es s =
+        relaxAll I hasTarget lastEdge curState es s
+  | [], s => rfl
+  | e :: es, s => by
+    simp only [relaxAll]
+    have : relax { I with term := t } hasTarget lastEdge curState s e =
+        relax I hasTarget lastEdge curState s e := rfl
+    rw [this]
+    split
+    · rfl
+    · exact relaxAll_withTerm I t hasTarget lastEdge curState es _
+
+/-- a turn taken under one limit function is taken under any more permissive one -/
+theorem Turn.mono {I : Inst α} {t₂ : Nat → Nat → Except ErrKind Unit}
+    (hmono : ∀ sz it, I.term sz it = .ok () → t₂ sz it = .ok ()) {source : Nat}
+    {target : Option Nat} {s s' : SState α} {v : Nat} (ht : Turn I source target s v s') :
+    Turn { I with term := t₂ } source target s v s' := by
+  obtain ⟨h1, h2, h3, h4, lastEdge, st, s2, h5, h6, h7⟩ := ht
+  refine ⟨hmono _ _ h1, h2, h3, h4, lastEdge, st, s2, h5, ?_, h7⟩
+  rw [relaxAll_withTerm]
+  exact h6
+
+/-- `success_monotone` for the loop -/
+theorem runLoop_mono {I : Inst α} {t₂ : Nat → Nat → Except ErrKind Unit}
+    (hmono : ∀ sz it, I.term sz it = .ok () → t₂ sz it = .ok ()) {source : Nat}
+    {target : Option Nat} :
+    ∀ (sched : List Nat) (s s' : SState α), runLoop I source target sched s = .ok s' →
+      runLoop { I with term := t₂ } source target sched s = .ok s' := by
+  intro sched s s' hrun
+  obtain ⟨pre, rest, h, rfl, hr, hterm, hfin⟩ := runLoop_ok_reach sched s s' hrun
+  clear hrun
+  induction hr with
+  | here s => exact runLoop_final (hmono _ _ hterm) hfin
+  | turn ht _ ih =>
+    rw [List.cons_append, runLoop_turn (ht.mono hmono)]
+    exact ih hterm hfin
+
+/-- the f-score the source is queued with -/
+def startF (I : Inst α) (source : Nat) (target : Option Nat) : Except ErrKind α :=
+  match target with
+  | none => .ok zero
+  | some _ => I.h source I.init
+
+/-- the empty result of the `target == source` shortcut -/
+def emptyResult : SState α :=
+  { queue := [], g := fun _ => none, sol := fun _ => none, solSize := 0, iters := 0 }
+
+/-- `run_a_star` is the shortcut or the loop from the initial state -/
+theorem runAStar_unfold (I : Inst α) (source : Nat) (target : Option Nat) (sched : List Nat) :
+    runAStar I source target sched =
+      if target = some source then .ok emptyResult
+      else match startF I source target with
+        | .error k => .error k
+        | .ok f0 => runLoop I source target sched (initState source f0) := by
+  unfold runAStar startF emptyResult
+  by_cases ht : target = some source
+  · simp [ht]
+  · have : (target == some source) = false := by simpa using ht
+    simp only [this, ht, if_false, Bool.false_eq_true]
+    cases target <;> rfl
+
+/-- an `.ok` result of `run_a_star` is the shortcut's or the loop's -/
+theorem runAStar_ok_iff {I : Inst α} {source : Nat} {target : Option Nat} {sched : List Nat}
+    {r : SState α} :
+    runAStar I source target sched = .ok r ↔
+      (target = some source ∧ r = emptyResult) ∨
+      (target ≠ some source ∧ ∃ f0, startF I source target = .ok f0 ∧
+        runLoop I source target sched (initState source f0) = .ok r) := by
+  rw [runAStar_unfold]
+  by_cases ht : target = some source
+  · simp only [ht, if_true, Except.ok.injEq, true_and, ne_eq, not_true_eq_false, false_and,
+      or_false]
+    exact eq_comm
+  · simp only [ht, if_false, false_and, ne_eq, not_false_eq_true, true_and, false_or]
+    cases startF I source target with
+    | error k => simp
+    | ok f0 => simp
+
+/-- `success_monotone` for `run_a_star`: replacing the limit function by one that passes wherever
+the old one passed keeps every result -/
+theorem runAStar_mono {I : Inst α} {t₂ : Nat → Nat → Except ErrKind Unit}
+    (hmono : ∀ sz it, I.term sz it = .ok () → t₂ sz it = .ok ()) {source : Nat}
+    {target : Option Nat} {sched : List Nat} {r : SState α}
+    (h : runAStar I source target sched = .ok r) :
+    runAStar { I with term := t₂ } source target sched = .ok r := by
+  rw [runAStar_ok_iff] at h ⊢
+  rcases h with h | ⟨ht, f0, hf0, hrun⟩
+  · exact Or.inl h
+  · exact Or.inr ⟨ht, f0, hf0, runLoop_mono hmono sched _ r hrun⟩
+
+/-- `I₂` differs from `I` in the limit function only -/
+structure SameButTerm (I I₂ : Inst α) : Prop where
+  incident : I₂.incident = I.incident
+  keyV : I₂.keyV = I.keyV
+  termV : I₂.termV = I.termV
+  init : I₂.init = I.init
+  valid : I₂.valid = I.valid
+  trav : I₂.trav = I.trav
+  h : I₂.h = I.h
+
+theorem SameButTerm.eq {I I₂ : Inst α} (h : SameButTerm I I₂) :
+    I₂ = { I with term := I₂.term } := by
+  obtain ⟨h1, h2, h3, h4, h5, h6, h7⟩ := h
+  cases I; cases I₂
+  simp only at h1 h2 h3 h4 h5 h6 h7
+  subst h1 h2 h3 h4 h5 h6 h7
+  rfl
+
+/-- **success_monotone**: if `I₂` passes the limit test wherever `I` does and they agree on
+everything else, every result under `I` is the result under `I₂` (same schedule) -/
+theorem success_monotone {I I₂ : Inst α} (hsame : SameButTerm I I₂)
+    (hmono : ∀ sz it, I.term sz it = .ok () → I₂.term sz it = .ok ()) {source : Nat}
+    {target : Option Nat} {sched : List Nat} {r : SState α}
+    (h : runAStar I source target sched = .ok r) : runAStar I₂ source target sched = .ok r := by
+  rw [hsame.eq]
+  exact runAStar_mono hmono h
+
+/-- **limited_prefix**: a run that returns under limits returns exactly the unlimited result -/
+theorem limited_prefix (I : Inst α) {source : Nat} {target : Option Nat} {sched : List Nat}
+    {r : SState α} (h : runAStar I source target sched = .ok r) :
+    runAStar { I with term := fun _ _ => .ok () } source target sched = .ok r :=
+  runAStar_mono (fun _ _ _ => rfl) h
+
+/-- `success_monotone` for `run_vertex_oriented` (tree, iterations and route) -/
+theorem success_monotone_route {I I₂ : Inst α} (hsame : SameButTerm I I₂)
+    (hmono : ∀ sz it, I.term sz it = .ok () → I₂.term sz it = .ok ()) {source : Nat}
+    {target : Option Nat} {sched : List Nat} {r : SearchResult α}
+    (h : runVertexOriented I source target sched = .ok r) :
+    runVertexOriented I₂ source target sched = .ok r := by
+  unfold runVertexOriented at h ⊢
+  split at h
+  · cases h
+  · rename_i s hs
+    rw [success_monotone hsame hmono hs]
+    exact h
+
+/-- `limited_prefix` for `run_vertex_oriented` -/
+theorem limited_prefix_route (I : Inst α) {source : Nat} {target : Option Nat} {sched : List Nat}
+    {r : SearchResult α} (h : runVertexOriented I source target sched = .ok r) :
+    runVertexOriented { I with term := fun _ _ => .ok () } source target sched = .ok r :=
+  success_monotone_route (I := I) (I₂ := { I with term := fun _ _ => .ok () })
+    ⟨rfl, rfl, rfl, rfl, rfl, rfl, rfl⟩ (fun _ _ _ => rfl) h
+
+/-- success is monotone in the limit of a single iteration / size / runtime limit, and adding a
+limit to a combination can only remove results: stated once for the concrete model — if every
+limit occurring in `m₂` that fires makes some limit of `m` fire (and `m₂` has no zero frequency),
+`m₂` passes wherever `m` passes -/
+theorem test_mono {m m₂ : TermM} (hz : ¬ ZeroFreq m₂)
+    (hle : ∀ sz it l₂, Leaf l₂ m₂ → l₂.fires sz it = some true →
+      ∃ l, Leaf l m ∧ l.fires sz it = some true) :
+    ∀ sz it, m.test sz it = .ok () → m₂.test sz it = .ok () := by
+  intro sz it h
+  rw [test_ok_iff, fires_false_iff]
+  refine ⟨hz, fun l₂ hl₂ hf => ?_⟩
+  obtain ⟨l, hl, hlf⟩ := hle sz it l₂ hl₂ hf
+  exact test_ok_leaf h hl hlf
+
 end SearchLimits
 end Compass
